@@ -56,12 +56,32 @@ func (r RevalidationContext) ToMisc(ccResp CCResponseDirectives) MiscFunc {
 }
 
 // clientPreconditionForwarded reports whether a precondition of the client's
-// own went upstream because the stored response has no validator of that kind
-// to replace it. A 304 may then be about the client's copy and says nothing
-// about the stored response: it is the origin's answer to the client.
+// own decided the origin's answer because the stored response has no validator
+// to put in its place. A 304 may then be about the client's copy and says
+// nothing about the stored response: it is the origin's answer to the client.
+//
+// When the stored response has an ETag, it went upstream as If-None-Match,
+// which the origin evaluates and which makes it ignore any If-Modified-Since
+// (RFC 9110 §13.2.2): the 304 is about the stored response. Without a stored
+// ETag the client's own If-None-Match is what the origin evaluates, and the
+// client's If-Modified-Since is when there is no stored Last-Modified either.
 func clientPreconditionForwarded(req *http.Request, stored http.Header) bool {
-	return (req.Header.Get("If-None-Match") != "" && stored.Get("ETag") == "") ||
-		(req.Header.Get("If-Modified-Since") != "" && stored.Get("Last-Modified") == "")
+	if stored.Get("ETag") != "" {
+		return false
+	}
+	return hasFieldValue(req.Header, "If-None-Match") ||
+		(hasFieldValue(req.Header, "If-Modified-Since") && stored.Get("Last-Modified") == "")
+}
+
+// hasFieldValue reports whether any field line of the field has a value (an
+// empty first line does not hide the lines behind it).
+func hasFieldValue(h http.Header, field string) bool {
+	for _, v := range h.Values(field) {
+		if v != "" {
+			return true
+		}
+	}
+	return false
 }
 
 type validationResponseHandler struct {
